@@ -107,7 +107,10 @@ def corpus_defs(tier):
     # --- layout: all codec x audio x metadata x layout configurations; tree + raw facets --------
     d['layout'] = dict(trace='TraceMuxide', rand=[dict(gen='layout', n=0, rel='meta', facets=F_ALL)])
     d['metalayout'] = dict(trace='TraceMuxide', rand=[dict(gen='metalayout', n=0, rel='layout', facets=None)])
-    d['fraginit'] = dict(trace='TraceFrag', rand=[dict(gen='fraginit', n=0, rel=None, facets=None)])
+    # init segments: generator families, plus AV1 sequence headers enumerated by MCAv1Seq (operating points: tier / level) handed to the builder / config
+    d['fraginit'] = dict(trace='TraceFrag', transform='av1init', mc=[
+        _mc({'Sections': '{"operating"}', 'Lite': 'TRUE'}, module='MCAv1Seq', invariants=('RoundTrip', 'FramingOK'), properties=(), facets=None, rel=None, workers=4),
+    ], rand=[dict(gen='fraginit', n=0, rel=None, facets=None)])
     d['meta'] = dict(trace='TraceMuxide', mc=[
         _mc({'From': 0, 'To': 60000 if q else 2932896, 'Stride': 1}, module='MCMeta', invariants=('RoundTrip', 'Monotone'), properties=()),
     ] + ([_mc({'From': 0, 'To': 2932896, 'Stride': 97}, module='MCMeta', invariants=('RoundTrip',), properties=())] if q else []),
@@ -295,6 +298,17 @@ def run(ctx, name, cdir):
                          {'op': 'wv', 'pts': gen.fin(9000), 'data': [0x12, 0x00, 0x32, 0x03, 0x30, 0x21, 0x22], 'key': False},
                          {'op': 'fin', 'how': 'in_place_stats'}]
                 r = json.dumps({'cfg': cfg, 'calls': calls, 'expected_by_generator': o['exp']})
+            if d.get('transform') == 'av1init':
+                o = json.loads(r)
+                if o['k'] != 1:
+                    continue                                   # framing 1: temporal delimiter, then the header OBU with a one-byte size
+                obu = o['data'][2:4 + o['data'][3]]
+                nth = len(lines)
+                cfg = {'vc': 'av1', 'w': 640, 'h': 480, 'timescale': 90000, 'fragms': 2000, 'via': 'builder' if nth % 2 else 'config', 'unit': 1, 'unit1': True,
+                       'judge_config': True, 'must_build': True, 'w32': gen.W30, 'i32': gen.W30, 'av1': obu,
+                       'facets': {'bytes': False, 'timing': False, 'tree': True, 'raw': True}}
+                lines.append({'kind': 'frag', 'cfg': cfg, 'calls': [{'op': 'fi'}]})
+                continue
             lines.append(_set_line(r, m['rel'], m['facets']))
     if d.get('dedupe'):
         seen = set()
